@@ -34,6 +34,9 @@ func isLenReadIns(i ssa.Instruction) bool {
 
 func c07(r *Run) {
 	w := r.W
+	for _, st := range [][2]string{{"SetDeadline", "readDeadline"}, {"SetReadDeadline", "readDeadline"}, {"SetReadTimeout", "readDeadline"}} {
+		r.setterStores("C07.R4:setter-records:"+st[0], "the deadline / timeout setters record what they are given on every path (SetReadTimeout also clears a pending deadline): a blocked read can only time out at a deadline that was stored", "(*connection)."+st[0], st[1])
+	}
 	r.optionPlumbed("C07.R4:read-timeout-option-applied", "the read timeout configured on the event loop (WithReadTimeout) is the value installed as the connection's read timeout", "WithReadTimeout", "(*connection).SetReadTimeout")
 	ro := r.roles()
 	px := protoEffects(w)
